@@ -13,7 +13,7 @@ from .common import Hooks, group_kind
 
 PROP = "C08"
 SHADOW = False
-EXPECT_PROBES = ["same-key", "same-error", "same-error:ReflectionThwarted", "same-error:OffSides",
+EXPECT_PROBES = ["host-reboot", "same-key", "same-error", "same-error:ReflectionThwarted", "same-error:OffSides",
                  "cycles>=3", "blob-json-equal", "serialize-repeatable"]
 
 INBOUND = ["valid", "valid", "valid", "reflect", "reflect", "own_side", "malformed", "identity", "other_valid"]
@@ -39,12 +39,36 @@ def generate(rng, tier="quick"):
         return nd
     nodes = [mk(cls, ent), mk(cls, ent), mk(cls, ent), mk(peer_cls, gen.gen_entropy(rng, gspec, 0.1))]
     k = rng.choice([0, 1, 1, 1, 2, 2, 3, 4, 6])
+    # process-level restarts: R lives in its own simulated process (host 0), possibly next to a
+    # neighbour session of the OTHER class family that shares the parameter-set object; a
+    # restart kills the process, and only the blobs survive - no module-level state does
+    procs = rng.random() < 0.2 and gspec["kind"] in gen.CHEAP_TO_REIMPORT and k > 0
+    W = []
+    if procs:
+        nodes[0]["host"], nodes[1]["host"], nodes[2]["host"], nodes[3]["host"] = 0, 1, 1, 2
+        if rng.random() < 0.7:
+            ncls = "S" if cls in "AB" else rng.choice(["A", "B"])
+            nb = mk(ncls, gen.gen_entropy(rng, gspec, 0.1))
+            nb["host"] = 0
+            nodes.append(nb)
+            W = [{"op": "boot", "n": 4}, {"op": "start", "n": 4}, {"op": "persist", "n": 4}]
     R = [{"op": "boot", "n": 0}, {"op": "start", "n": 0}]
+    if W and rng.random() < 0.6:
+        R = W + R                      # the neighbour touches the shared parameter set first
+        W = []
     for _ in range(k):
         R.append({"op": "persist", "n": 0})
         if rng.random() < 0.2:
             R.append({"op": "persist", "n": 0})
-        R += [{"op": "crash", "n": 0}, {"op": "recover", "n": 0}]
+        if procs:
+            R.append({"op": "reboot", "host": 0})
+            rec = [{"op": "recover", "n": 0}]
+            if len(nodes) > 4 and rng.random() < 0.5:
+                rec.insert(rng.randrange(2), {"op": "recover", "n": 4})
+            R += rec
+        else:
+            R += [{"op": "crash", "n": 0}, {"op": "recover", "n": 0}]
+    R += W
     if rng.random() < 0.5:
         R.append({"op": "persist", "n": 0})
     U = [{"op": "boot", "n": 1}, {"op": "start", "n": 1}] + [{"op": "serialize", "n": 1}] * rng.choice([1, 1, 2, 3])
@@ -76,8 +100,11 @@ def generate(rng, tier="quick"):
     if rng.random() < 0.3:
         # serialize again after finish and restore once more: still the same session data
         steps += [{"op": "serialize", "n": 1}]
-    return {"property": PROP, "config": {"psets": [pspec], "nodes": nodes}, "steps": steps,
-            "intent": {"inbound": kind, "cycles": k}}
+    cfg = {"psets": [pspec], "nodes": nodes}
+    if procs:
+        cfg["fresh_hosts"] = True
+    return {"property": PROP, "config": cfg, "steps": steps,
+            "intent": {"inbound": kind, "cycles": k, "procs": procs}}
 
 
 class Oracle(Hooks):
@@ -92,6 +119,12 @@ class Oracle(Hooks):
             if isinstance(n.out, bytes):
                 self.flag(w, "serialize-raised", "serialize() raised %s on a started instance (%d restore cycle(s) so far)"
                           % (ev["out"][4:], n.restores), cls=n.cls, exc=ev["out"][4:], restored=n.restores > 0)
+            return
+        if ev["op"] == "recover" and ev["out"].startswith("exc:") and ev["n"] == 0:
+            n = w.nodes[0]
+            self.flag(w, "restore-refused", "from_serialized() raised %s for state the same role wrote under the same "
+                      "parameters (%s)" % (ev["out"][4:], "after a process restart" if w.reboots else "same process"),
+                      cls=n.cls, exc=ev["out"][4:], after_process_restart=w.reboots > 0)
             return
         if ev["op"] in ("persist", "serialize") and ev["out"] == "blob" and ev["n"] in self.blobs:
             n = w.nodes[ev["n"]]
